@@ -25,6 +25,9 @@ func checkC11(c *Ctx) {
 		"C11.noglobalalias: accessors and constructors return no slice or pointer into package-level data or into crypto/elliptic's shared curve parameters",
 		"C11.operands: API operations write none of their non-receiver pointer operands (except declared outputs)",
 		"C11.overwrite: decoders assign every receiver field they define on every accepting path and never read-modify-write old contents",
+		"C11.retain: a decoder keeps no sub-slice of its byte-slice input in the decoded object (directly, or through golang.org/x/crypto/cryptobyte's aliasing readers) unless it re-binds the field to a private copy before returning: otherwise later results depend on later writes to the caller's buffer, and in-place updates of the object write into it",
+		"C11.append: the built-in append is applied to (a view of) a slice parameter only in append-style functions (name starts with append/Append, or hash.Hash's Sum): elsewhere it may write into the caller's buffer beyond its length; the result of appending to a slice held in a field is stored back into that field",
+		"C11.innerptr: no method or constructor stores the address of a field of one key object into another object it hands out (a public key pointing into the private key changes when the private key is re-decoded in place)",
 		"C11.fresh: a decoder writes through a pointer held in a field of its receiver only after assigning that field itself on every path, so it cannot overwrite an object shared with another value")
 	c.NotDec = append(c.NotDec, "replay equivalence over call histories", "absence of data races in general (only the no-write-on-read-path condition)", "goroutine interleavings")
 
@@ -101,6 +104,9 @@ func checkC11(c *Ctx) {
 	checkC11Operands(c, p)
 	checkC11Overwrite(c, p)
 	checkC11Fresh(c, p)
+	checkC11Retain(c, p)
+	checkC11Append(c, p)
+	checkC11InnerPtr(c, p)
 }
 
 // sharedSource: v is (derived from) a package-level variable or crypto/elliptic's shared CurveParams.
@@ -212,9 +218,13 @@ var outputParam = regexp.MustCompile(`^(dst|out|output|buf|b|ct|ss|sig|signature
 // checkC11Operands: protocol-level API operations do not write their non-receiver operands.
 func checkC11Operands(c *Ctx, p *Program) {
 	mod := p.Mod()
-	pkgs := []string{"oprf", "zk/dleq", "zk/dl", "zk/qndleq", "secretsharing", "math/polynomial", "tss/rsa", "hpke", "sign/bls", "blindsign/blindrsa", "blindsign/blindrsa/partiallyblindrsa", "abe/cpabe/tkn20", "ot/simot", "kem/hybrid", "kem/xwing"}
+	pkgs := []string{"oprf", "zk/dleq", "zk/dl", "zk/qndleq", "secretsharing", "math/polynomial", "tss/rsa", "hpke", "sign/bls", "blindsign/blindrsa", "blindsign/blindrsa/partiallyblindrsa", "abe/cpabe/tkn20", "ot/simot", "kem/hybrid", "kem/xwing", "dh/csidh"}
 	// declared outputs, by (function, parameter name)
-	declared := map[string]bool{}
+	declared := map[string]bool{
+		"dh/csidh.GeneratePublicKey#pub":  true, // documented: pub receives the generated key
+		"dh/csidh.GeneratePrivateKey#key": true,
+		"dh/csidh.DeriveSecret#out":       true,
+	}
 	n := 0
 	for _, pkg := range pkgs {
 		path := circlPath + "/" + pkg
@@ -488,5 +498,331 @@ func checkC11Fresh(c *Ctx, p *Program) {
 	c.count("decoder_pointer_writes", n)
 	if n < 25 {
 		c.undecided("C11.fresh", "decoders writing through receiver pointer fields", fmt.Sprintf("only %d sites found (floor 25)", n), "")
+	}
+}
+
+// aliasing readers of golang.org/x/crypto/cryptobyte: *out aliases the String's backing array
+func cryptobyteAliasOut(name string) bool {
+	return strings.HasSuffix(name, "cryptobyte.String).ReadBytes")
+}
+
+// checkC11Retain: decoders copy what they keep.
+func checkC11Retain(c *Ctx, p *Program) {
+	n := 0
+	var fs []*ssa.Function
+	for f := range p.AllFuncs {
+		if f.Blocks == nil || !isCirclFunc(f) || f.Synthetic != "" || f.Parent() != nil {
+			continue
+		}
+		nm := f.Name()
+		if !(strings.HasPrefix(nm, "Unmarshal") || strings.HasPrefix(nm, "unmarshal") || strings.HasPrefix(nm, "Unpack") || strings.HasPrefix(nm, "Import") || strings.HasPrefix(nm, "SetBytes") || strings.HasPrefix(nm, "FromBytes")) {
+			continue
+		}
+		hasBytes := false
+		for _, q := range f.Params {
+			if untrustedParam(q.Type()) {
+				hasBytes = true
+			}
+		}
+		if hasBytes {
+			fs = append(fs, f)
+		}
+	}
+	sort.Slice(fs, func(i, j int) bool { return fs[i].String() < fs[j].String() })
+	for _, f := range fs {
+		n++
+		// fields that end up holding an alias of the input: field address -> where
+		type kept struct {
+			fa  *ssa.FieldAddr
+			pos token.Pos
+			how string
+		}
+		var keeps []kept
+		for _, b := range f.Blocks {
+			for _, in := range b.Instrs {
+				switch x := in.(type) {
+				case *ssa.Store:
+					fa, ok := x.Addr.(*ssa.FieldAddr)
+					if !ok {
+						continue
+					}
+					if _, isSlice := x.Val.Type().Underlying().(*types.Slice); !isSlice {
+						continue // string conversions copy
+					}
+					if rp := sliceRootParam(x.Val); rp != nil {
+						keeps = append(keeps, kept{fa, x.Pos(), "stores " + descVal(x.Val)})
+					}
+				case *ssa.Call:
+					if cryptobyteAliasOut(p.staticCalleeName(&x.Call)) && len(x.Call.Args) >= 2 {
+						if fa, ok := x.Call.Args[1].(*ssa.FieldAddr); ok {
+							keeps = append(keeps, kept{fa, x.Pos(), "cryptobyte ReadBytes leaves an alias of the parsed buffer"})
+						}
+					}
+				}
+			}
+		}
+		var bad []string
+		for _, k := range keeps {
+			// re-bound to a private copy later on every path to a return? (a dominating-later store of a
+			// copy of the field itself: approximated by "some store of a self-copy to the same field
+			// post-dominates": the copy store must be in a block that every Return's block is dominated by
+			// or equal to)
+			fixed := false
+			for _, b := range f.Blocks {
+				for _, in := range b.Instrs {
+					st, ok := in.(*ssa.Store)
+					if !ok {
+						continue
+					}
+					fa2, ok := st.Addr.(*ssa.FieldAddr)
+					if !ok || fa2.Field != k.fa.Field || descAddr(fa2) != descAddr(k.fa) {
+						continue
+					}
+					// re-bound to something that is not a view of the input (a copy, a fresh buffer)
+					if sliceRootParam(st.Val) != nil {
+						continue
+					}
+					// every successful return is dominated by the copy
+					all := true
+					for _, rb := range f.Blocks {
+						ret, isRet := rb.Instrs[len(rb.Instrs)-1].(*ssa.Return)
+						if !isRet {
+							continue
+						}
+						// returns of a nil object (error paths) are irrelevant
+						if len(ret.Results) > 0 {
+							if kst, isK := ret.Results[0].(*ssa.Const); isK && kst.Value == nil {
+								continue
+							}
+						}
+						if !instrDominates(st, ret) {
+							all = false
+						}
+					}
+					if all {
+						fixed = true
+					}
+				}
+			}
+			if !fixed {
+				bad = append(bad, fmt.Sprintf("%s: field %s (%s)", p.pos(k.pos), fieldName(k.fa), k.how))
+			}
+		}
+		construct := fname(f) + ": keeps no alias of its input"
+		if len(bad) > 0 {
+			c.bad("C11.retain", construct, strings.Join(bad, "; "), p.fnPos(f))
+		} else if len(keeps) > 0 {
+			c.ok("C11.retain", construct, fmt.Sprintf("%d field(s) parsed in place are re-bound to private copies before returning", len(keeps)), p.fnPos(f))
+		} else {
+			c.ok("C11.retain", construct, "no sub-slice of a parameter is stored in a field", p.fnPos(f))
+		}
+	}
+	c.count("retain_decoders", n)
+	if n < 100 {
+		c.undecided("C11.retain", "decoders", fmt.Sprintf("only %d decoders enumerated (floor 100)", n), "")
+	}
+}
+
+// sliceRootParam: v is a re-slicing (no copying conversion) of a slice parameter.
+func sliceRootParam(v ssa.Value) *ssa.Parameter {
+	for i := 0; i < 16; i++ {
+		switch x := v.(type) {
+		case *ssa.Parameter:
+			if _, ok := x.Type().Underlying().(*types.Slice); ok {
+				return x
+			}
+			return nil
+		case *ssa.Slice:
+			v = x.X
+		case *ssa.ChangeType:
+			v = x.X
+		default:
+			return nil
+		}
+	}
+	return nil
+}
+
+var appendStyle = regexp.MustCompile(`^(append|Append)|^Sum$`)
+
+// checkC11Append: append(param, ...) writes into the spare capacity of the caller's slice.
+func checkC11Append(c *Ctx, p *Program) {
+	n := 0
+	var fs []*ssa.Function
+	for f := range p.AllFuncs {
+		if f.Blocks != nil && isCirclFunc(f) && f.Synthetic == "" {
+			fs = append(fs, f)
+		}
+	}
+	sort.Slice(fs, func(i, j int) bool { return fs[i].String() < fs[j].String() })
+	total, nf := 0, 0
+	for _, f := range fs {
+		for _, b := range f.Blocks {
+			for _, in := range b.Instrs {
+				call, ok := in.(*ssa.Call)
+				if !ok {
+					continue
+				}
+				bi, ok := call.Call.Value.(*ssa.Builtin)
+				if !ok || bi.Name() != "append" || len(call.Call.Args) < 1 {
+					continue
+				}
+				total++
+				// a slice held in a field: the appended result must go back into that field (the owner
+				// extends its own buffer); handing it elsewhere lets later appends write into the spare
+				// capacity of a buffer the field may share with the caller
+				{
+					// the destination, looking through re-slicing and phis: a load of a field?
+					var fieldLoad func(v ssa.Value, depth int) *ssa.UnOp
+					fieldLoad = func(v ssa.Value, depth int) *ssa.UnOp {
+						if depth > 6 {
+							return nil
+						}
+						switch x := v.(type) {
+						case *ssa.Slice:
+							return fieldLoad(x.X, depth+1)
+						case *ssa.Phi:
+							for _, e := range x.Edges {
+								if r := fieldLoad(e, depth+1); r != nil {
+									return r
+								}
+							}
+						case *ssa.UnOp:
+							if x.Op == token.MUL {
+								if _, ok := x.X.(*ssa.FieldAddr); ok {
+									return x
+								}
+							}
+						}
+						return nil
+					}
+					if ld := fieldLoad(call.Call.Args[0], 0); ld != nil {
+						if fa, ok := ld.X.(*ssa.FieldAddr); ok {
+							nf++
+							back := false
+							for _, r := range *call.Referrers() {
+								if st, ok := r.(*ssa.Store); ok {
+									if fa2, ok := st.Addr.(*ssa.FieldAddr); ok && fa2.Field == fa.Field && descAddr(fa2) == descAddr(fa) {
+										back = true
+									}
+								}
+							}
+							construct := fmt.Sprintf("%s: append(%s, …) goes back into the field", fname(f), descVal(call.Call.Args[0]))
+							if back {
+								c.ok("C11.append", construct, "stored back into the same field", p.pos(call.Pos()))
+							} else {
+								c.bad("C11.append", construct, "the result of appending to a field-held slice is used elsewhere: a later append may overwrite the spare capacity of a buffer the field shares with the caller", p.pos(call.Pos()))
+							}
+							continue
+						}
+					}
+				}
+				rp := sliceRootParam(call.Call.Args[0])
+				if rp == nil {
+					continue
+				}
+				n++
+				construct := fmt.Sprintf("%s: append(%s, …)", fname(f), descVal(call.Call.Args[0]))
+				root := f
+				for root.Parent() != nil {
+					root = root.Parent()
+				}
+				if appendStyle.MatchString(root.Name()) {
+					c.ok("C11.append", construct, "append-style function: the caller passes the destination and receives the result", p.pos(call.Pos()))
+				} else {
+					c.bad("C11.append", construct, fmt.Sprintf("appends to the caller's slice %s: when it has spare capacity the bytes after its length are overwritten in the caller's buffer", rp.Name()), p.pos(call.Pos()))
+				}
+			}
+		}
+	}
+	c.count("append_calls", total)
+	c.count("append_to_parameter", n)
+	c.count("append_to_field", nf)
+	if total < 150 {
+		c.undecided("C11.append", "append calls", fmt.Sprintf("only %d append calls enumerated (floor 150)", total), "")
+	} else if n == 0 {
+		c.ok("C11.append", "append calls", fmt.Sprintf("%d append calls, none to a parameter", total), "")
+	}
+}
+
+// checkC11InnerPtr: an object handed out must not hold the address of a field of the receiver (or of
+// another freshly built object that is returned alongside): the two objects would share mutable state.
+func checkC11InnerPtr(c *Ctx, p *Program) {
+	var fs []*ssa.Function
+	for f := range p.AllFuncs {
+		if f.Blocks != nil && isCirclFunc(f) && f.Synthetic == "" && f.Parent() == nil {
+			fs = append(fs, f)
+		}
+	}
+	sort.Slice(fs, func(i, j int) bool { return fs[i].String() < fs[j].String() })
+	n, nbad := 0, 0
+	for _, f := range fs {
+		// objects this function hands out
+		returned := map[*ssa.Alloc]bool{}
+		for _, b := range f.Blocks {
+			if ret, ok := b.Instrs[len(b.Instrs)-1].(*ssa.Return); ok {
+				for _, r := range ret.Results {
+					v := r
+					if mi, ok := v.(*ssa.MakeInterface); ok {
+						v = mi.X
+					}
+					if u, ok := v.(*ssa.UnOp); ok && u.Op == token.MUL {
+						v = u.X
+					}
+					if a, ok := v.(*ssa.Alloc); ok {
+						returned[a] = true
+					}
+				}
+			}
+		}
+		if len(returned) == 0 {
+			continue
+		}
+		for _, b := range f.Blocks {
+			for _, in := range b.Instrs {
+				st, ok := in.(*ssa.Store)
+				if !ok {
+					continue
+				}
+				fa, ok := st.Val.(*ssa.FieldAddr)
+				if !ok {
+					continue
+				}
+				dst, _ := memRoot(st.Addr)
+				dAlloc, ok := dst.(*ssa.Alloc)
+				if !ok || !returned[dAlloc] {
+					continue
+				}
+				src, _ := memRoot(fa.X)
+				shared := ""
+				switch s := src.(type) {
+				case *ssa.Parameter:
+					if f.Signature.Recv() != nil && len(f.Params) > 0 && s == f.Params[0] {
+						shared = "the receiver"
+					}
+				case *ssa.Alloc:
+					if s != dAlloc && returned[s] {
+						shared = "another object returned by this function (" + s.Comment + ")"
+					}
+				}
+				if shared == "" {
+					continue
+				}
+				// only addresses of array / struct typed fields matter (shared mutable storage)
+				switch fa.Type().(*types.Pointer).Elem().Underlying().(type) {
+				case *types.Array, *types.Struct:
+				default:
+					continue
+				}
+				n++
+				nbad++
+				c.bad("C11.innerptr", fmt.Sprintf("%s: %s receives the address of field %s of %s", fname(f), descAddr(st.Addr), fieldName(fa), shared),
+					"the two objects share this storage: re-decoding or modifying one changes the other", p.pos(st.Pos()))
+			}
+		}
+	}
+	c.count("innerptr_sites", n)
+	if nbad == 0 {
+		c.ok("C11.innerptr", "objects handed out hold no address of another key object's fields", fmt.Sprintf("%d functions inspected", len(fs)), "")
 	}
 }
